@@ -61,7 +61,7 @@ def base_findings():
 
 def main():
     patches = []
-    for d in [os.path.abspath(a) for a in sys.argv[1:]] or sorted(glob.glob(os.path.join(VERIF, 'neutral', '*'))):
+    for d in [os.path.abspath(a) for a in sys.argv[1:]] or sorted(d_ for d_ in glob.glob(os.path.join(VERIF, 'neutral', '*')) if os.path.isdir(d_)):
         patches += sorted(glob.glob(os.path.join(d, 'patch*.diff'))) if os.path.isdir(d) else [d]
     basef = None
     bad = 0
